@@ -203,6 +203,7 @@ func checkExposed(labels map[string]string, name string, v any) string {
 type jPath struct {
 	Text string
 	Val  any
+	Own  string // the key itself when the path addresses a top-level key that is a valid label name
 }
 
 func isIdent(s string) bool { return validLabelName(s) }
@@ -226,7 +227,11 @@ func collectPaths(r *vk.RNG, v any, prefix string, first bool, out *[]jPath) {
 				seg = "[" + strconv.Quote(k) + "]"
 			}
 			p := prefix + seg
-			*out = append(*out, jPath{Text: p, Val: t.Vals[k]})
+			own := ""
+			if first && isIdent(k) {
+				own = k
+			}
+			*out = append(*out, jPath{Text: p, Val: t.Vals[k], Own: own})
 			collectPaths(r, t.Vals[k], p, false, out)
 		}
 	case []any:
@@ -457,6 +462,44 @@ func runC06(r *vk.Run) {
 				return
 			}
 			c.Count("documents:json-paths", 1)
+			// the label's name is the user's choice: a path stored under the key's own name exposes the
+			// same text as under any other name (no existing label of that name, so nothing to override)
+			{
+				var parts2 []string
+				own := map[string]string{} // own-name label -> the x label of the reference answer
+				for _, w := range wants {
+					if w.p.Own != "" && w.p.Own != "app" && w.p.Own != "msg" && own[w.p.Own] == "" && !strings.HasPrefix(w.p.Own, "__") {
+						own[w.p.Own] = w.label
+						parts2 = append(parts2, w.p.Own+"="+quoteLogQL(w.p.Text))
+					}
+				}
+				if len(parts2) > 0 {
+					stage2 := "| json " + strings.Join(parts2, ", ")
+					got2, gotLine2, msg2 := c06Eval(c, line, stage2, nil)
+					if msg2 == "" && gotLine2 != line {
+						msg2 = "line changed"
+					}
+					if msg2 == "" {
+						for name, ref := range own {
+							a, okA := got[ref]
+							b, okB := got2[name]
+							if okA != okB || a != b {
+								msg2 = fmt.Sprintf("top-level key %q: stored as %s it gives %q (present=%v), stored under its own name %q (present=%v)", name, ref, a, okA, b, okB)
+							}
+							c.Count("own_name_paths_compared", 1)
+						}
+						for k := range got2 {
+							if _, req := own[k]; !req && k != "app" && k != "msg" {
+								msg2 = fmt.Sprintf("non-requested field exposed: %s=%q", k, got2[k])
+							}
+						}
+					}
+					if msg2 != "" {
+						c.Fail("", stage2+" (compared with "+stage+"): "+msg2, det(stage2, got2))
+						return
+					}
+				}
+			}
 			// two labels selecting the same value
 			{
 				pth := vk.Pick(rng, paths)
@@ -1190,6 +1233,7 @@ func runC06(r *vk.Run) {
 	})
 	r.Require("fields_asserted", 5000)
 	r.Require("paths_asserted", 500)
+	r.Require("own_name_paths_compared", 50)
 	r.Require("malformed_lines_checked", 3000)
 	r.Require("overrides_asserted", 500)
 }
